@@ -232,7 +232,7 @@ theorem Mat.solveChecked_complete (A B : Mat K) (n m : ℕ)
 section Shape
 variable [FloorRing K]
 
-theorem evaluate_size (b : Basis K) (tol t : K) (d : ℕ) (fr : Bool) :
+theorem evaluate_size_c05 (b : Basis K) (tol t : K) (d : ℕ) (fr : Bool) :
     (b.evaluate tol t d fr).size = b.numFunctions := by
   unfold Basis.evaluate
   simp only
@@ -246,7 +246,7 @@ theorem basisMat_shape (b : Basis K) (tol : K) (ps : List K) (hps : ps.length = 
       ∀ i, i < ps.length → ((Obj.basisMat b tol ps 0 true).getD i #[]).size = ps.length := by
   refine ⟨basisMat_size b tol ps, fun i hi => ?_⟩
   have hi' : i < b.numFunctions := by omega
-  simp [Obj.basisMat, Array.getD, hps, hi', evaluate_size]
+  simp [Obj.basisMat, Array.getD, hps, hi', evaluate_size_c05]
 
 end Shape
 
